@@ -182,3 +182,15 @@ Theorem c06_change_base_is_the_source :
                  (combine (combine Ul Ur) d) (Some v)
        = Some (change_base F Ul Ur d v).
 Proof. exact change_base_is_the_source. Qed.
+
+(* ---- every function of the source that re-bases an operand has the shape of the model's q_bin / q_muladd / q_from:
+   under autoconvert each quantity argument is re-based from ITS base units into SELF's with ITS dimension
+   (Gen/OpsSrc.v is regenerated from src/system.rs and src/si/*.rs on every run) ---- *)
+From Coq Require Import String.
+From UomV Require Import Model.OpsSrc Gen.OpsSrc Spec.OpsTie.
+Theorem c06_operator_sources_have_the_model_shape :
+  forallb shape_ok src_ops = true
+  /\ forallb (fun f => existsb (fun e => String.eqb (os_fn e) f) src_ops)
+          ["$addsub_fun"; "$addsubassign_fun"; "$muldiv_fun"; "rem"; "rem_assign"; "eq"; "partial_cmp"; "lt"; "le"; "gt"; "ge"; "hypot"; "mul_add"; "from"; "add"]%string
+     && (30 <=? List.length src_ops)%nat = true.
+Proof. split; [exact operator_sources_have_the_model_shape|exact operator_table_covers]. Qed.
